@@ -37,9 +37,14 @@ type ConcClone struct {
 	// CancelAt: k > 0: this consumer's own context reports cancellation from its k-th Err call on
 	// (k odd: between the wrapper's look at the context and the underlying read it drives).
 	CancelAt int `json:"cancel_at,omitempty"`
+	// DeadlineUs: > 0: this consumer reads under a real deadline that many microseconds away
+	// (with a slow source it expires while the consumer drives a fetch).
+	DeadlineUs int `json:"deadline_us,omitempty"`
 }
 
 type ConcCase struct {
+	// SlowUs: the source sleeps that long in every Next (a slow datastore read)
+	SlowUs int         `json:"slow_us,omitempty"`
 	Input  Input       `json:"input"`
 	Reader int         `json:"reader"`
 	Clones []ConcClone `json:"clones"`
@@ -77,8 +82,14 @@ func genConc(t *rapid.T) ConcCase {
 			cl.HeadEvery = rapid.IntRange(1, 3).Draw(t, "headEvery")
 		}
 		cl.Yield = rapid.Bool().Draw(t, "yield")
-		if i > 0 && rapid.IntRange(0, 2).Draw(t, "cancelled") == 0 {
-			cl.CancelAt = rapid.IntRange(1, 12).Draw(t, "cancelAt")
+		switch rapid.IntRange(0, 5).Draw(t, "cancelled") {
+		case 0, 1:
+			if i > 0 {
+				cl.CancelAt = rapid.IntRange(1, 12).Draw(t, "cancelAt")
+			}
+		case 2:
+			cl.DeadlineUs = rapid.IntRange(50, 3000).Draw(t, "deadlineUs")
+			c.SlowUs = rapid.IntRange(20, 300).Draw(t, "slowUs")
 		}
 		c.Clones = append(c.Clones, cl)
 	}
@@ -97,7 +108,7 @@ func checkConc(env *fw.Env, c ConcCase) *fw.Failure {
 		return nil
 	}
 	ctx := context.Background()
-	ds := &fakeDS{items: tupleFake(c.Input, 0).items, errAt: c.Input.ErrAt}
+	ds := &fakeDS{items: tupleFake(c.Input, 0).items, errAt: c.Input.ErrAt, slow: time.Duration(c.SlowUs) * time.Microsecond}
 	wrapped := sharediterator.NewSharedIteratorDatastore(ds, sharediterator.NewSharedIteratorDatastoreStorage())
 	want := specSequence(c.Input, 0)
 
@@ -114,6 +125,11 @@ func checkConc(env *fw.Env, c ConcCase) *fw.Failure {
 			if cl.CancelAt > 0 {
 				ctx = &flipCtx{Context: context.Background(), at: cl.CancelAt}
 			}
+			if cl.DeadlineUs > 0 {
+				var cancel context.CancelFunc
+				ctx, cancel = context.WithTimeout(context.Background(), time.Duration(cl.DeadlineUs)*time.Microsecond)
+				defer cancel()
+			}
 			<-start
 			it, err := openShared(wrapped, c.Reader)
 			if err != nil || it == nil {
@@ -128,7 +144,7 @@ func checkConc(env *fw.Env, c ConcCase) *fw.Failure {
 				if cl.HeadEvery > 0 && n%cl.HeadEvery == 0 {
 					for k := 0; k < 2; k++ {
 						h, err := it.Head(ctx)
-						if cl.CancelAt > 0 && errors.Is(err, context.Canceled) {
+						if ownCtxErr(cl, err) {
 							r.endErr = err
 							return
 						}
@@ -144,7 +160,7 @@ func checkConc(env *fw.Env, c ConcCase) *fw.Failure {
 					runtime.Gosched()
 				}
 				t, err := it.Next(ctx)
-				if cl.CancelAt > 0 && errors.Is(err, context.Canceled) {
+				if ownCtxErr(cl, err) {
 					r.endErr = err
 					return
 				}
@@ -182,7 +198,7 @@ func checkConc(env *fw.Env, c ConcCase) *fw.Failure {
 		if cl.StopAfter >= 0 && cl.StopAfter <= n {
 			n, full = cl.StopAfter, false
 		}
-		if cl.CancelAt > 0 && errors.Is(r.endErr, context.Canceled) {
+		if ownCtxErr(cl, r.endErr) {
 			// a consumer whose own request was cancelled: what it saw before is a prefix; nothing else is asked of it
 			if len(r.seen) > len(want.items) || strings.Join(r.seen, ",") != strings.Join(want.items[:len(r.seen)], ",") {
 				return fw.Failf("C23/shared-concurrent-wrong-sequence", "cancelled clone %d (%+v) saw %v, not a prefix of %v", i, cl, r.seen, want.items)
@@ -244,6 +260,11 @@ func checkConc(env *fw.Env, c ConcCase) *fw.Failure {
 	}
 	env.Rec.Case(c, nt, sample, classes...)
 	return nil
+}
+
+// ownCtxErr: the error is the consumer's own cancellation or deadline.
+func ownCtxErr(cl ConcClone, err error) bool {
+	return (cl.CancelAt > 0 && errors.Is(err, context.Canceled)) || (cl.DeadlineUs > 0 && errors.Is(err, context.DeadlineExceeded))
 }
 
 func sameErr(a, b error) bool {
